@@ -72,6 +72,7 @@ PLAN_SIG = {'shipped': True, 'uniform': [], 'perop': ['NQ', 'SRQ8a'],
 PLANS['sig'] = PLAN_SIG
 
 
+PLANS['chain'] = {'shipped': True, 'uniform': ['FP16', 'SRQ8s'], 'io': ['none']}
 PLAN_MULTI = {'shipped': True, 'uniform': ['SRQ8s', 'WO4c'], 'io': ['none']}
 PLANS['multi'] = PLAN_MULTI
 MULTI_TYPES = eg.TTOPO + ['CONV_2D', 'EMBEDDING_LOOKUP', 'SOFTMAX']
@@ -80,6 +81,9 @@ MULTI_TYPES = eg.TTOPO + ['CONV_2D', 'EMBEDDING_LOOKUP', 'SOFTMAX']
 def cases(tier, sigrev=False, blk=True):
   if blk:
     yield from blk_cases()
+  for n in ((4, 5) if tier == 'quick' else (4, 5, 6)):
+    for g in eg.chains(n, ['FULLY_CONNECTED', 'TANH', 'ABS'], exports='mid'):
+      yield {'ir': g, 'rp': 'chain'}
   yield from universe.multi_cases(
       MULTI_TYPES if tier == 'quick' else eg.T21 + eg.U, {'rp': 'multi'})
   for n, types, variants, exports, pname in spec(tier):
